@@ -40,6 +40,10 @@ type asStep struct {
 	Op     string `json:"op,omitempty"`
 	Arg    string `json:"arg,omitempty"`
 	Poison bool   `json:"poison,omitempty"`
+	// how the driver obtains the target reference of a tell: "" = the reference returned by ActorOf,
+	// "clone" = a fresh Clone() of it, "parsed" = a reference parsed from the path string for this send,
+	// "held" = one reference object per actor parsed before anything was spawned and re-used
+	Via string `json:"via,omitempty"`
 	// model projection after the step (optional): per actor [st, zombie, restarting, paused, nchildren, nstash, nsys, nuser]
 	Proj map[string][]any `json:"proj,omitempty"`
 }
@@ -73,6 +77,7 @@ type asExec struct {
 	gated   map[*mailbox.UnboundedMailbox]string
 	sysOf   map[*mailbox.UnboundedMailbox]bool
 	stuck   string
+	held    map[string]vivid.ActorRef
 }
 
 func (x *asExec) ev(e map[string]any) {
@@ -449,6 +454,13 @@ func newASExec(sc *asScenario) (*asExec, error) {
 		ctl.Deactivate(c)
 		return nil, errors.New(e)
 	}
+	x.held = map[string]vivid.ActorRef{}
+	for _, n := range sc.Names {
+		if r, err := x.sys.ParseRef("localhost" + x.pathOf(n)); err == nil {
+			x.held[n] = r
+			x.paths[x.pathOf(n)] = n
+		}
+	}
 	return x, nil
 }
 
@@ -503,6 +515,21 @@ func (x *asExec) do(st asStep) (ok bool) {
 		}
 	case "tell":
 		r := x.ref(st.X)
+		switch st.Via {
+		case "clone":
+			if r != nil {
+				r = r.Clone()
+			}
+		case "parsed":
+			pr, err := x.sys.ParseRef("localhost" + x.pathOf(st.X))
+			if err == nil {
+				r = pr
+			}
+		case "held":
+			x.mu.Lock()
+			r = x.held[st.X]
+			x.mu.Unlock()
+		}
 		if r == nil {
 			return false
 		}
